@@ -110,6 +110,18 @@ func upgradeDumpBody(r *Run) {
 		if name != target {
 			return kvs
 		}
+		if ballots == 4 {
+			// a ballot is planted only where the recorded storage holds a ballots
+			// item at all: contracts that never collected votes (Audit, …) have no
+			// pending-vote gate to speak of
+			has := false
+			for _, kv := range kvs {
+				has = has || string(kv.K) == "ballots"
+			}
+			if !has {
+				ballots = 0
+			}
+		}
 		out := kvs[:0:0]
 		for _, kv := range kvs {
 			switch {
